@@ -185,8 +185,14 @@ def like(state_values, x):
 # ---------------------------------------------------------------- menu
 def partners(U, p, vals):
     a, b = U[0], U[-1]
+    allk = rb.knots_of(U)
+    wide = max(zip(allk[:-1], allk[1:]), key=lambda sp_: (sp_[1] - sp_[0], -sp_[0]))
+    # a position that is either an existing knot or far from all of them: the plain midpoint of the interval can be a
+    # rounding distance away from a float knot (0.4999999999999999 vs 0.5), i.e. a nearly coincident knot
     mid = (a + b) / 2
-    ks = rb.knots_of(U)[1:-1]
+    if any(0 < abs(mid - k) < F(1, 1000) for k in allk):
+        mid = wide[0] + (wide[1] - wide[0]) * F(1, 2)
+    ks = allk[1:-1]
     out = []
     out.append(("same_degree_mid", [a] * (p + 1) + [mid] + [b] * (p + 1), p))
     out.append(("higher_bezier", [a] * (p + 2) + [b] * (p + 2), p + 1))
